@@ -18,15 +18,16 @@ def fiveBOMs : List Bytes :=
 def startsWithBOM (h : Bytes) : Bool := fiveBOMs.any (fun b => hasPrefix h b)
 def noBinary (h : Bytes) : Bool := h.all (fun b => !binaryBytes.contains b)
 
-/-- clauses decidable from one detection result (`chain` leaf first) -/
-def walkSpec (raw : Bytes) (lim : Nat) (chain : List Info) (_cs _leafStr : Bytes) : String :=
+/-- clauses decidable from one detection result of the implementation
+    (`chain`: (mime, extension) pairs, leaf first; `leafStr`: the leaf's String()) -/
+def walkSpec (raw : Bytes) (lim : Nat) (chain : List (Bytes × Bytes)) (_leafStr : Bytes) : String :=
   let h := header raw lim
   let textual := startsWithBOM h || noBinary h
-  let hasText := chain.any (fun i => i.mime == mimeTextPlain)
+  let hasText := chain.any (fun i => i.1 == mimeTextPlain)
   if hasText && !textual then "SPEC C07:text-without-bom-or-binary-free"
   else if textual && chain.length < 2 then "SPEC C07:textual-header-not-classified"
   else if chain.isEmpty then "SPEC C02:empty-chain"
-  else if (chain.getLast?.map (·.mime)) != some mimeOctet then "SPEC C02:chain-not-rooted"
+  else if (chain.getLast?.map (·.1)) != some mimeOctet then "SPEC C02:chain-not-rooted"
   else ""
 
 def charsetSpec (_raw : Bytes) (_goRes : String) : String := ""
